@@ -588,6 +588,12 @@ class Executor:
             return Ref(Cell(self.fresh_value(inner, name), name))
         if b in ("RefCell", "Located") and False:
             pass
+        if b in ("HashMap", "HashSet"):
+            m = MapObj(name, is_set=(b == "HashSet"))
+            ga = generic_args(ty)
+            m.meta["arbitrary"] = True          # an input map of unknown contents: entries are materialised on first lookup
+            m.meta["val_ty"] = ga[1] if len(ga) > 1 else "()"
+            return m
         if b in ("Vec", "SmallVec", "VecDeque") or ty.startswith("["):
             if ty.startswith("["):
                 et = ty[1:-1].split(";")[0].strip()
